@@ -52,3 +52,42 @@ Fixpoint weave (gs : list str) (ts : list ltok) : str :=
   end.
 
 Definition print_bst (gaps : list str) (p : program) : str := weave gaps (flat_program p).
+
+(* ------------------------------------------------------------------------------------------- *)
+(* the programs and layouts the round-trip statement is about (boolean, so that Examples can be
+   checked by computation) *)
+
+(* a name: non-empty, no whitespace, no hash, double quote or brace *)
+Definition wf_nameb (s : str) : bool := match s with [] => false | _ => forallb is_name_char s end.
+Definition digits_okb (z : Z) : bool := (Z.of_nat (length (N_digits (Z.abs_N z))) <=? max_str_digits)%Z.
+Fixpoint wf_tokb (t : tok) : bool :=
+  match t with
+  | TInt z => digits_okb z                                   (* at most 4300 digits *)
+  | TStr s => forallb not_quote s                            (* no double quote *)
+  | TQuote s => forallb is_name_char s
+  | TId s => wf_nameb s && negb (hd 0 s =? 39)               (* does not start with an apostrophe *)
+  | TFun body => forallb wf_tokb body
+  end.
+(* a command: one of the ten names in any case, with exactly as many groups as its arity *)
+Definition wf_commandb (c : command) : bool :=
+  wf_nameb (fst c)
+  && match arity (fst c) with Some n => Nat.eqb n (length (snd c)) | None => false end
+  && forallb (forallb wf_tokb) (snd c).
+Definition wf_programb (p : program) : bool := forallb wf_commandb p.
+
+(* a layout: every gap is whitespace (any of Python's 29 whitespace characters, so any mixture of
+   blanks, tabs and LF / CR / CRLF line ends), and a name is separated from a preceding name or
+   integer by at least one character *)
+Definition needs_gap (prev : option ltok) (t : ltok) : bool :=
+  match prev, t with
+  | Some (LName _), LName _ | Some (LInt _), LName _ => true
+  | _, _ => false
+  end.
+Definition is_nil (g : str) : bool := match g with [] => true | _ => false end.
+Fixpoint layout_okb (prev : option ltok) (gs : list str) (ts : list ltok) : bool :=
+  match ts with
+  | [] => forallb is_space (match gs with g :: _ => g | [] => [] end)
+  | t :: ts' =>
+    forallb is_space (gap_hd gs) && (negb (needs_gap prev t) || negb (is_nil (gap_hd gs)))
+    && layout_okb (Some t) (tl gs) ts'
+  end.
